@@ -10,6 +10,12 @@ every delivery.  That recorded sequence of deliveries *is* the schedule replayed
 model (`HappyModel/C17`), which derives payloads, replies and stores on its own; the two transcripts
 are diffed line by line, and the Lean Spec predicates (`HappyModel/C17/Spec.lean`) judge the
 implementation's own transcript.
+
+Every store has its own write latency (`wlats`: one slow disk on a middle chain node / a backup / a
+leader makes "acknowledged before applied" visible at the instant of the reply).  Multi-leader runs
+use every resolver of `conflict_resolver.py`; the merging ones (`VectorClockMerge(merge_fn)`,
+`CustomResolver` with set-union or max) are modelled by `HappyModel/C17/MLM.lean`, and their
+convergence clause is judged once anti-entropy has run (`Spec.gossipComplete`).
 """
 from __future__ import annotations
 
@@ -168,6 +174,28 @@ def dash(x):
     return "-" if x is None else x
 
 
+def node_wlat(case, i):
+    """write latency (ns) of node i's store: `wlats` (one entry per node) or the uniform `wlat`"""
+    ws = case.get("wlats")
+    if ws:
+        return ws[i % len(ws)]
+    return case["wlat"]
+
+
+def gen_wlats(rng, n, slow_ok):
+    """per-node store write latencies: uniform, or one node (a middle one where `slow_ok` says so)
+    far slower than any network path (a slow disk), or independent small ones"""
+    base = rng.choice([0, 1000, MS, MS, 5 * MS])
+    style = rng.random()
+    if style < 0.45 or n < 2:
+        return [base] * n
+    if style < 0.85:
+        ws = [rng.choice([0, 1000, MS]) for _ in range(n)]
+        ws[rng.choice(slow_ok)] = rng.choice([60 * MS, 150 * MS, 300 * MS, 300 * MS + 1])
+        return ws
+    return [rng.choice([0, 1, 1000, MS, 5 * MS, 20 * MS]) for _ in range(n)]
+
+
 def generic_echo(md, node_idx, event):
     """action line for a delivery, from the event itself"""
     if "_op" in md:
@@ -193,23 +221,34 @@ class C17(core.Property):
     case_timeout_s = 20
     rule = ("families pb / chain / ml in rotation: 1-8 client ops (16 in thorough) on 1-3 keys, write values unique per run, "
             "op times clustered inside one store/network latency; 0-3 backups x ASYNC/SEMI_SYNC/SYNC, chains of 2-4 nodes with "
-            "and without CRAQ, 2-4 leaders with LWW / VectorClockMerge and 0-3 anti-entropy ticks; every network latency drawn "
-            "from a generated list (1 ns .. 50 ms) so replication messages overtake each other; a case is non-trivial when it "
-            "has >= 2 writes and at least one delivered network message; distinct = distinct case content")
+            "and without CRAQ, 2-4 leaders with every resolver of conflict_resolver.py (LastWriterWins, VectorClockMerge with and "
+            "without merge_fn, CustomResolver; merging ones with set-union and max joins, so the merge differs from both inputs), "
+            "0-3 anti-entropy ticks among the writes and 0-6 anti-entropy rounds after them (all leaders at one instant, staggered, "
+            "or one leader); per-node store write latencies uniform, independent, or one slow disk (60-300 ms, on a middle chain "
+            "node / a backup / a leader) slower than any network path; every network latency drawn from a generated list "
+            "(1 ns .. 50 ms) so replication messages overtake each other; a case is non-trivial when it has >= 2 writes and at "
+            "least one delivered network message; distinct = distinct case content")
     trusted_base = [
         "hv/props/c17.py: tracing subclasses (handle_event wrapped only), scripted LatencyDistribution, Network.send id stamping",
         "schedule hand-over: the model replays the delivery sequence recorded from the implementation run of the same case",
         "KVStore.contains/get_sync, BackupNode.last_applied_seq, ChainNode.dirty_keys, LeaderNode.versions (public API) for snapshots",
         "Merkle root-hash equality is modelled as equality of the hashed key->value maps (no SHA-256 collision)",
         "CPython dict insertion order (LeaderNode._versions iteration order is modelled as an insertion-ordered list)",
+        "hv/props/c17.py ml_resolver: the merge functions handed to VectorClockMerge / CustomResolver (joined value, later "
+        "timestamp, greater writer id, pointwise-max clock) are harness code; MLM.joinVer is their model; a set of items is shown "
+        "as its bit mask",
     ]
     assumptions = [
         "'applied at replica r' for an acknowledged write w of key k = r holds for k the value of w or of a write to k accepted later",
-        "all puts of one KVStore land in the order they were started (constant write latency + engine time order, C01): "
+        "all puts of one KVStore land in the order they were started (constant write latency per store + engine time order, C01): "
         "the model rejects schedules that resume primary/head puts out of FIFO order",
         "multi-leader timestamps are the simulated clock; network latencies are >= 1 ns, so causally later versions carry later timestamps",
         "ReplicatedStore (sequential same-order puts to every replica, no messages) is not modelled",
-        "CustomResolver / VectorClockMerge with a merge function are outside the convergence claim (arbitrary user code)",
+        "merging resolvers: 'anti-entropy having run' is read as Spec.gossipComplete — after the last client-write / Replicate "
+        "handler step, the AntiEntropyRequests alone (sender state at the tick, merged when the receiver's handler finishes) carry "
+        "every leader's state to every leader; the convergence clause of a merging-resolver run is judged only then (delivering all "
+        "Replicates is not enough: mlm_replicate_order_matters); for resolvers that return one of their inputs it is judged at "
+        "every quiescent end, anti-entropy or not",
     ]
     hypotheses = [
         "ML.Coherent (per key, on the versions stamped by the run, ML.created): vector-clock dominance implies (timestamp, writer, own counter) "
@@ -217,6 +256,9 @@ class C17(core.Property):
         "(clock readings never decrease; a leader stamps a write strictly after the timestamps of the versions it has received in Replicate "
         "messages, i.e. positive network latency) in ml_coherent_of_positive_latency",
         "chain: 2 <= n (build_chain's own precondition)",
+        "mlm_concurrent_merge_order_independent: MLM.AllConcurrent (each merged version neither dominates nor is dominated by "
+        "what was merged before it); mlm_gossip_complete_converges: MLM.EvOK (ticks come from leaders, stray values are below the "
+        "join of all) and MLM.Complete (every leader knows every leader)",
     ]
     partial_theorems = {
         "HappyModel.C17.ml_quiescent_convergence_positive_latency": "full at run level for the modelled system: for every action list "
@@ -229,6 +271,14 @@ class C17(core.Property):
             "model never loses a message, so quiescence alone already means every leader has processed every Replicate and anti-entropy only "
             "re-delivers versions; convergence *through* anti-entropy after lost Replicates (network partitions) is outside the model and is "
             "covered by the correspondence runs only as far as the harness generates it",
+        "HappyModel.C17.mlm_gossip_complete_converges": "merging resolvers: proved in three unbounded parts that are composed by "
+            "argument, not by one run-level theorem — (1) mlm_quiescent_clocks_agree: for every action list of the MLM transition "
+            "system, at quiescence all leaders carry the same vector clock for every key (no hypothesis); (2) "
+            "mlm_same_clock_install_is_join: between versions with equal clocks _install is the pure join of the values and keeps the "
+            "clock; (3) mlm_gossip_complete_converges: for a commutative/associative/idempotent join, any interleaving of "
+            "snapshot/merge events whose knowledge relation is complete leaves all leaders on the join of everything. Not proved as "
+            "one statement: that an MLM run from a Replicate-quiescent state refines the abstract gossip events (each "
+            "AntiEntropyRequest handler = noise* ; recv), which is what Spec.gossipComplete assumes when it reads a delivery log",
     }
 
     def __init__(self):
@@ -278,8 +328,10 @@ class C17(core.Property):
         nw = rng.choice([1, 2, 3, 4, 6, 8] + ([12, 16] if tier == "thorough" else []))
         ops = self.gen_ops(rng, nw, nk, [0], list(range(nb + 1)))
         # a late read on every node so that the final values are also observed through the API
+        # node 0 is the primary; a slow disk is put on a backup
+        wlats = gen_wlats(rng, nb + 1, list(range(1, nb + 1)) or [0])
         return {"family": "pb", "mode": rng.choice(["async", "semi", "sync", "sync"]), "nb": nb, "nk": nk,
-                "wlat": rng.choice([0, 1000, MS, MS, 5 * MS]), "rlat": rng.choice([1000, MS]),
+                "wlat": wlats[0], "wlats": wlats, "rlat": rng.choice([1000, MS]),
                 "ops": ops, "lats": self.gen_lats(rng, 4 * nw * max(nb, 1))}
 
     def gen_chain(self, rng, tier):
@@ -289,9 +341,13 @@ class C17(core.Property):
         nw = rng.choice([1, 2, 3, 4, 6, 8] + ([12, 16] if tier == "thorough" else []))
         wnodes = [0] * 12 + list(range(1, n))           # a few writes at non-head nodes (rejected)
         ops = self.gen_ops(rng, nw, nk, wnodes, list(range(n)), p_read=0.4 if craq else 0.25)
+        # heterogeneous stores: the slow disk sits on a middle node when there is one, else on the tail
+        wlats = gen_wlats(rng, n, list(range(1, n - 1)) or [n - 1])
         return {"family": "chain", "n": n, "craq": craq, "nk": nk,
-                "wlat": rng.choice([0, 1000, MS, MS, 5 * MS]), "rlat": rng.choice([0, 1000, MS, 3 * MS]),
+                "wlat": wlats[0], "wlats": wlats, "rlat": rng.choice([0, 1000, MS, 3 * MS]),
                 "ops": ops, "lats": self.gen_lats(rng, 6 * nw * n)}
+
+    ML_RESOLVERS = ["lww", "vcm", "clww", "vcm-union", "custom-union", "vcm-max", "custom-max"]
 
     def gen_ml(self, rng, tier):
         n = rng.choice([2, 2, 3, 3, 4])
@@ -302,9 +358,26 @@ class C17(core.Property):
         t_end = ops[-1][0]
         for _ in range(rng.choice([0, 1, 2, 3])):
             ops.append([rng.choice([rng.randrange(MS, t_end + 2 * MS), t_end + rng.choice([200, 400]) * MS]), "a", rng.randrange(n)])
+        # "anti-entropy having run": rounds well after the last write has been replicated; in a round
+        # every leader ticks at the same instant (requests cross), or slightly apart (exchanges
+        # overlap), or a single leader ticks.  Peers are the node's own random.choice.
+        t = t_end + 1000 * MS
+        for _ in range(rng.choice([0, 0, 1, 2, 3, 4, 6])):
+            style = rng.random()
+            if style < 0.45:
+                for i in range(n):
+                    ops.append([t, "a", i])
+            elif style < 0.7:
+                for i in rng.sample(range(n), n):
+                    ops.append([t, "a", i])
+                    t += rng.choice([1, 1000, MS, 20 * MS])
+            else:
+                ops.append([t, "a", rng.randrange(n)])
+            t += 600 * MS
         ops.sort(key=lambda o: o[0])
-        return {"family": "ml", "n": n, "nk": nk, "resolver": rng.choice(["lww", "vcm"]),
-                "wlat": rng.choice([0, 1000, MS, MS, 5 * MS]), "rlat": rng.choice([1000, MS]),
+        wlats = gen_wlats(rng, n, list(range(n)))
+        return {"family": "ml", "n": n, "nk": nk, "resolver": rng.choice(self.ML_RESOLVERS),
+                "wlat": wlats[0], "wlats": wlats, "rlat": rng.choice([1000, MS]),
                 "ops": ops, "lats": self.gen_lats(rng, 40), "rseed": rng.randrange(1000)}
 
     # ------------------------------------------------------------------ implementation
@@ -376,8 +449,8 @@ class C17(core.Property):
         tr = Trace()
         nb, nk = case["nb"], case["nk"]
         net, link = make_network(tr, case["lats"])
-        wl, rl = case["wlat"] / 1e9, case["rlat"] / 1e9
-        stores = [KVStore(f"s{i}", write_latency=wl, read_latency=rl) for i in range(nb + 1)]
+        rl = case["rlat"] / 1e9
+        stores = [KVStore(f"s{i}", write_latency=node_wlat(case, i) / 1e9, read_latency=rl) for i in range(nb + 1)]
         mode = {"async": ReplicationMode.ASYNC, "semi": ReplicationMode.SEMI_SYNC, "sync": ReplicationMode.SYNC}[case["mode"]]
         blist = []
         primary = traced(PrimaryNode, tr, 0)("n0", store=stores[0], backups=blist, network=net, mode=mode)
@@ -427,8 +500,8 @@ class C17(core.Property):
         tr = Trace()
         n, nk, craq = case["n"], case["nk"], case["craq"]
         net, link = make_network(tr, case["lats"])
-        wl, rl = case["wlat"] / 1e9, case["rlat"] / 1e9
-        stores = [KVStore(f"s{i}", write_latency=wl, read_latency=rl) for i in range(n)]
+        rl = case["rlat"] / 1e9
+        stores = [KVStore(f"s{i}", write_latency=node_wlat(case, i) / 1e9, read_latency=rl) for i in range(n)]
         nodes = []
         for i in range(n):
             role = ChainNodeRole.HEAD if i == 0 else (ChainNodeRole.TAIL if i == n - 1 else ChainNodeRole.MIDDLE)
@@ -473,39 +546,99 @@ class C17(core.Property):
         sim.run()
         return self._finish(tr, True)
 
+    @staticmethod
+    def ml_kind(case):
+        """model resolver of a case: lww (returns one of its inputs) | union | max (merging)"""
+        r = case.get("resolver", "lww")
+        return "union" if r.endswith("-union") else ("max" if r.endswith("-max") else "lww")
+
+    @staticmethod
+    def ml_resolver(name):
+        """every conflict resolver the library offers; the merging ones combine two concurrent versions
+        into a third: joined value, later timestamp, greater writer id, pointwise-max vector clock"""
+        from happysimulator.components.replication.conflict_resolver import (
+            CustomResolver, LastWriterWins, VectorClockMerge, VersionedValue)
+
+        def merged(a, b, value):
+            va, vb = a.vector_clock or {}, b.vector_clock or {}
+            return VersionedValue(value=value, timestamp=max(a.timestamp, b.timestamp),
+                                  writer_id=max(a.writer_id, b.writer_id),
+                                  vector_clock={k: max(va.get(k, 0), vb.get(k, 0)) for k in set(va) | set(vb)})
+
+        def union(key, a, b):
+            return merged(a, b, tuple(sorted(set(a.value) | set(b.value))))
+
+        def vmax(key, a, b):
+            return merged(a, b, max(a.value, b.value))
+
+        def fold(fn):
+            def resolve_all(key, versions):
+                out = versions[0]
+                for v in versions[1:]:
+                    out = fn(key, out, v)
+                return out
+            return resolve_all
+
+        if name == "lww":
+            return LastWriterWins()
+        if name == "vcm":
+            return VectorClockMerge()
+        if name == "clww":
+            return CustomResolver(lambda key, vs: max(vs, key=lambda v: (v.timestamp, v.writer_id)))
+        if name == "vcm-union":
+            return VectorClockMerge(union)
+        if name == "custom-union":
+            return CustomResolver(fold(union))
+        if name == "vcm-max":
+            return VectorClockMerge(vmax)
+        if name == "custom-max":
+            return CustomResolver(fold(vmax))
+        raise core.InfraError(f"unknown resolver {name}")
+
     def impl_ml(self, case):
         from happysimulator import Event, Instant, Simulation
         from happysimulator.components.datastore import KVStore
-        from happysimulator.components.replication.conflict_resolver import LastWriterWins, VectorClockMerge
         from happysimulator.components.replication.multi_leader import LeaderNode
 
         random.seed(case.get("rseed", 0))       # LeaderNode picks its anti-entropy peer with random.choice
         tr = Trace()
         n, nk = case["n"], case["nk"]
+        sets = self.ml_kind(case) == "union"
+        # union resolvers: a write carries the one-item set (val,), shown as the bit mask of its items
+        enc = (lambda v: (v,)) if sets else (lambda v: v)
+        dec = (lambda x: sum(1 << i for i in x) if isinstance(x, tuple) else x) if sets else (lambda x: x)
         net, link = make_network(tr, case["lats"])
-        wl, rl = case["wlat"] / 1e9, case["rlat"] / 1e9
-        stores = [KVStore(f"s{i}", write_latency=wl, read_latency=rl) for i in range(n)]
+        rl = case["rlat"] / 1e9
+        stores = [KVStore(f"s{i}", write_latency=node_wlat(case, i) / 1e9, read_latency=rl) for i in range(n)]
         nodes = [traced(LeaderNode, tr, i)(f"n{i}", store=stores[i], network=net,
-                                          conflict_resolver=LastWriterWins() if case["resolver"] == "lww" else VectorClockMerge(),
+                                          conflict_resolver=self.ml_resolver(case["resolver"]),
                                           anti_entropy_interval=100000.0) for i in range(n)]
         for a in nodes:
             a.add_peers([b for b in nodes if b is not a])
             for b in nodes:
                 if a is not b:
                     link(a, b)
-        clock_ns = [0]
 
         def echo(idx, event):
             md = event.context.get("metadata", {})
             if "_op" in md:
                 if event.event_type == "Write":
                     tr.lines.append(f"t {nodes[idx].now.nanoseconds}")
+                    return f"cw {md['_op']} {idx} {kidx(md.get('key'))} {dec(md.get('value'))}"
                 return generic_echo(md, idx, event)
             if event.event_type == "AntiEntropy":
                 return None                         # peer known only after random.choice ran
             tr.delivered += 1
             k = md.get("key")
-            return f"d {md.get('_mid')} {idx} {event.event_type} {dash(kidx(k) if k is not None else None)} {dash(md.get('value'))} -"
+            v = md.get("value")
+            return f"d {md.get('_mid')} {idx} {event.event_type} {dash(kidx(k) if k is not None else None)} {dash(dec(v) if v is not None else None)} -"
+
+        def show(store):
+            xs = []
+            for k in range(nk):
+                if store.contains(kname(k)):
+                    xs.append(f"{k}:{dec(store.get_sync(kname(k)))}")
+            return ",".join(xs) if xs else "-"
 
         def vers(nd):
             vs = nd.versions
@@ -514,24 +647,25 @@ class C17(core.Property):
                 v = vs.get(kname(k))
                 if v is not None:
                     vc = ".".join(str((v.vector_clock or {}).get(f"n{j}", 0)) for j in range(n))
-                    xs.append(f"{k}={v.value}@{round(v.timestamp * 1e9)}/{v.writer_id[1:]}[{vc}]")
+                    xs.append(f"{k}={dec(v.value)}@{round(v.timestamp * 1e9)}/{v.writer_id[1:]}[{vc}]")
             return ",".join(xs) if xs else "-"
 
         def state():
-            return "S " + " | ".join(show_store(s, nk) for s in stores) + " ; V " + " | ".join(vers(nd) for nd in nodes)
+            return "S " + " | ".join(show(s) for s in stores) + " ; V " + " | ".join(vers(nd) for nd in nodes)
 
         def fmt_w(v):
             return str(v.get("status"))
 
         def fmt_r(v):
-            return f"val {dash(v.get('value'))}"
+            x = v.get("value")
+            return f"val {dash(dec(x) if x is not None else None)}"
 
         tr.echo_fn, tr.state_fn = echo, state
         sim = Simulation(start_time=Instant.Epoch, sources=[],
                          entities=nodes + [net] + stores)
-        cops = [o for o in case["ops"] if o[1] != "a"]
         # anti-entropy ticks are plain events to the node (what get_anti_entropy_event() builds)
-        self._schedule_ops(dict(case, ops=[o for o in case["ops"]]), sim, nodes, tr, fmt_w, fmt_r)
+        ops = [[o[0], o[1], o[2], o[3], enc(o[4])] if o[1] == "w" else o for o in case["ops"]]
+        self._schedule_ops(dict(case, ops=ops), sim, nodes, tr, fmt_w, fmt_r)
         sim.run()
         return self._finish(tr, True)
 
@@ -561,7 +695,7 @@ class C17(core.Property):
         if fam == "chain":
             return (f"chain {variant} {case['n']} {1 if case['craq'] else 0} {case['nk']}", body)
         if fam == "ml":
-            return (f"ml {variant} {case['n']} {case['nk']}", body)
+            return (f"ml {variant} {case['n']} {case['nk']} {self.ml_kind(case)}", body)
         raise core.InfraError(f"unknown family {fam}")
 
     def judge_block(self, case, impl_out):
@@ -573,7 +707,7 @@ class C17(core.Property):
         if fam == "chain":
             return (f"judge-chain {case['n']} {1 if case['craq'] else 0}", list(impl_out))
         if fam == "ml":
-            return ("judge-ml", list(impl_out))
+            return (f"judge-ml {case['n']} {0 if self.ml_kind(case) == 'lww' else 1}", list(impl_out))
         return None
 
     def nontrivial_key(self, case, impl_out):
@@ -598,11 +732,20 @@ class C17(core.Property):
                 cand = dict(case)
                 cand["lats"] = case["lats"][:i] + case["lats"][i + 1:]
                 yield cand
+        ws = case.get("wlats")
+        if ws and len(set(ws)) > 1:
+            for i, w in enumerate(ws):
+                if w != min(ws):
+                    cand = dict(case)
+                    cand["wlats"] = ws[:i] + [min(ws)] + ws[i + 1:]
+                    yield cand
 
     def mutate(self, case, rng):
         c = json.loads(json.dumps(case))
         k = rng.random()
-        if k < 0.5 and c["lats"]:
+        if k < 0.15 and c.get("wlats"):
+            c["wlats"][rng.randrange(len(c["wlats"]))] = rng.choice([0, 1000, MS, 20 * MS, 150 * MS, 300 * MS])
+        elif k < 0.5 and c["lats"]:
             for _ in range(rng.randint(1, 3)):
                 c["lats"][rng.randrange(len(c["lats"]))] = rng.choice([1, 1000, MS, 7 * MS, 60 * MS])
         elif k < 0.8 and len(c["ops"]) > 1:
@@ -630,6 +773,15 @@ THEOREMS = [
     "HappyModel.C17.ml_coherent_of_positive_latency",
     "HappyModel.C17.ml_quiescent_convergence_positive_latency",
     "HappyModel.C17.ml_convergence_needs_coherence",
+    "HappyModel.C17.mlm_install_is_pick",
+    "HappyModel.C17.mlm_pick_clock_is_max",
+    "HappyModel.C17.mlm_merge_clock_order_independent",
+    "HappyModel.C17.mlm_concurrent_merge_order_independent",
+    "HappyModel.C17.mlm_same_clock_install_is_join",
+    "HappyModel.C17.mlm_gossip_complete_converges",
+    "HappyModel.C17.mlm_replicate_order_matters",
+    "HappyModel.C17.mlm_quiescent_clocks_agree",
+    "HappyModel.C17.mlm_quiescent_covers",
 ]
 C17.theorems = THEOREMS
 PROPERTY = C17()
